@@ -6,6 +6,16 @@ props = [json.loads(l) for l in open(os.path.join(V, "properties.jsonl"))]
 ids = [p["id"] for p in props]
 
 CLAIMS = {
+ "C09": dict(
+   technique="Lean 4 proof over executable models of the blame porcelain parser, git path un-quoting, note lookup, overlay, hunk splitting and output formats; in-process correspondence of the real parser/un-quoter with the model on generated adversarial porcelain; end-to-end differential check of git-ai blame (default, --show-prompt, --json, --porcelain, --line-porcelain, --incremental, library API with -w/revision/ignore-rev/-L) against an independent Python recomputation from plain git blame --line-porcelain + raw notes and against the Lean overlay",
+   text="Proof (Lean, all sizes) that the parser inverts git's line-porcelain grammar for arbitrary field contents and paths, that the overlay labels a line AI by S exactly when the originating commit's note credits the original line under the original path (rename-invariant), and that all formats carry the same line→commit/author content; tied to the code by in-process correspondence with zero disagreements and by an end-to-end recomputation on generated histories (renames, copies, merges, several sessions, crafted notes).",
+   note="git blame itself is the reference (its grammar is re-validated on every e2e query). JSON/--show-prompt AI-ness holds under hclash (known finding json:human-name-equals-prompt-hash). Mail/time/committer values and sha abbreviation not modelled. Foreign prompt lookup is an environment parameter. Empty files are refused by git-ai blame by design (observation). Fixed in /repo: rename lost attribution (251f3aa3).",
+   ref="DESIGN.md §8 C09"),
+ "C14": dict(
+   technique="Lean 4 theorems over the history-level Sys model (idempotent checkpoint; final note is a function of the edits alone) + end-to-end metamorphic check on the built binary",
+   text="Machine-checked proof over Model/Sys.lean that repeating a checkpoint with no intervening change leaves the state unchanged, and that two histories with the same edits in the same order — differing only in where and how often human checkpoints are taken — end in the same note (granularity_checkpoints, via commit_exact). The model is tied to the binary by C01's end-to-end correspondence (predicted vs written notes). The four redundancy kinds of the property (extra human checkpoints, repeated checkpoints, one agent edit split into consecutive checkpoints of the same session, read-only git commands) are checked end to end: each generated base history is replayed with 1-4 inserted redundancies and the canonical notes per commit and blame must be identical.",
+   note="Split-agent-edit and read-only-command invariance are validated end to end, not proved. Sys idealises lines as content ids with faithful diffs (C16 covers the tracker); single file per model run. Trusted: Lean kernel, sysrun/c14 refinement generator, real git.",
+   ref="DESIGN.md §8 C14"),
  "C08": dict(
    technique="Lean 4 theorems over a hand-written model of prompt-storage mode resolution, the storage-mode filter, entropy-token masking and a note-writer state machine; extractor-regenerated table of note writers, filter shape and constants; in-process model-vs-code correspondence; end-to-end blob-walk oracles on every note-writing path",
    text="Machine-checked proof that (1) under any effective mode other than `notes`, no note written by any note-writing function of the current source contains a message — an invariant over all histories whose side condition (every writer that reads the working log filters before serialising) is re-decided on the table extracted at each run; (2) redact_secrets_in_text never slices out of range or off a char boundary and its output contains no 15–90 character secret-character run the classifier flags (output runs characterised exactly); (3) in notes mode every user/assistant/thinking/plan text in every note is that redaction; exclusion overrides inclusion and `notes` requires an explicit setting. Tied to the Rust code by differential testing of effective_prompt_storage, extract_tokens, redact_secret, redact_secrets_in_text, redact_secrets_from_prompts, and by running 13 note-writing paths on the real binary in the storage modes with a scan of every blob reachable from refs/notes/ai.",
